@@ -1178,6 +1178,30 @@ class Exec:
             return [(VOpaque(name), st)]
         if name == "print":
             return [(NONE, st)]
+        if name in ("max", "min") and len(args) == 2 and not kw:
+            a, b = self.deref(args[0], st), self.deref(args[1], st)
+            if isinstance(a, VDyn) or isinstance(b, VDyn):
+                outs = []
+                states = [st]
+                for x in (a, b):
+                    if isinstance(x, VDyn):
+                        nxt = []
+                        for s0 in states:
+                            exs, ok = self.raise_if(s0, z3.Not(x.is_num()), "TypeError", lineno, "%s() of a non-number" % name)
+                            outs.extend(exs)
+                            if ok is not None:
+                                nxt.append(ok)
+                        states = nxt
+                a2 = Num(a.num) if isinstance(a, VDyn) else a
+                b2 = Num(b.num) if isinstance(b, VDyn) else b
+                for s0 in states:
+                    outs.extend(self.builtin(name, [a2, b2], kw, s0, node))
+                return outs
+            if isinstance(a, Num) and isinstance(b, Num) and a.inf is None and b.inf is None:
+                at = a.t if not (a.is_int and not b.is_int) else z3.ToReal(a.t)
+                bt = b.t if not (b.is_int and not a.is_int) else z3.ToReal(b.t)
+                pick_a = (at >= bt) if name == "max" else (at <= bt)
+                return [(Num(z3.If(pick_a, at, bt)), st)]
         if name == "abs":
             n = V.as_num(args[0])
             return [(Num(z3.If(n.t < 0, -n.t, n.t)), st)]
